@@ -1,17 +1,33 @@
 #!/bin/sh
-# Re-runs every seeded change against the quick check of its property (and related ones) in a scratch clone of /repo.
-# /repo and the committed evidence are not touched.  usage: tools/seed_matrix.sh [ids...]
-S=/tmp/repo-matrix
-rm -rf $S $S-out; git clone -q /repo $S || exit 1
+# Re-runs every seeded change against the quick check of its property (and related ones) in scratch clones of /repo, LANES at a time.
+# /repo and the committed evidence are not touched.  usage: [LANES=3] tools/seed_matrix.sh [ids...]
+LANES=${LANES:-3}
 cd /verif
 # the checks run from a snapshot of /verif, so that work on the harness does not disturb a matrix in progress
 export VERIF_ROOT=/tmp/verif-snap
 rm -rf $VERIF_ROOT; mkdir -p $VERIF_ROOT; rsync -a --exclude .git --exclude replays --exclude seeded /verif/ $VERIF_ROOT/
-for d in ${@:-$(ls -d seeded/C*-* | sed 's|seeded/||')}; do
-  p=${d%-*}; x=${d#*-}
-  extra=$p
-  case $d in C01-B) extra=C01,C04;; C07-A) extra=C07,C06;; C16-B) extra=C16,C17;; C10-A) extra=C10,C17;; C17-A) extra=C17,C10;; C17-B) extra=C17,C05;; C11-C) extra=C11,C06;; C06-D) extra=C06,C11;; C01-D) extra=C01,C16;; C02-C) extra=C02,C10;; C17-C) extra=C17,C10;; C08-D) extra=C08,C09;; C12-D) extra=C12,C14;; C07-C|C07-D) extra=C07,C17;; esac
-  tools/seed_eval.py $p $x /nonexistent /verif/seeded/$d/patch.diff /verif/seeded/$d/demo.py --checks $extra --checks-only --scratch $S 2>&1 | grep -v "^stored" | tail -3
-done
-rm -rf $S $S-out $VERIF_ROOT
+ALL="${@:-$(ls -d seeded/C*-* | sed 's|seeded/||')}"
+lane() {
+  k=$1; shift
+  S=/tmp/repo-matrix-$k
+  rm -rf $S $S-out; git clone -q /repo $S || exit 1
+  for d in "$@"; do
+    [ -f seeded/$d/OBSOLETE.md ] && continue
+    p=${d%-*}; x=${d#*-}
+    extra=$p
+    case $d in C01-B) extra=C01,C04;; C07-A) extra=C07,C06;; C16-B) extra=C16,C17;; C10-A) extra=C10,C17;; C17-A) extra=C17,C10;; C17-B) extra=C17,C05;;
+      C11-C) extra=C11,C06;; C06-D) extra=C06,C11;; C01-D) extra=C01,C16;; C02-C) extra=C02,C10;; C17-C) extra=C17,C10;; C08-D) extra=C08,C09;;
+      C12-D) extra=C12,C14;; C07-C|C07-D) extra=C07,C17;; C01-E) extra=C01,C04;; C07-E|C07-F) extra=C07,C06;; C18-F) extra=C18,C16;;
+      C17-E) extra=C17,C16;; C17-F) extra=C17,C10;; C09-F) extra=C09,C11;; C13-E|C13-F) extra=C13,C12;; C10-F) extra=C10,C17;; esac
+    echo "== $d"
+    tools/seed_eval.py $p $x /nonexistent /verif/seeded/$d/patch.diff /verif/seeded/$d/demo.py --checks $extra --checks-only --scratch $S 2>&1 | grep -v "^stored" | tail -3
+  done > /tmp/matrix-lane-$k.log 2>&1
+  rm -rf $S $S-out
+}
+i=0
+for k in $(seq 1 $LANES); do eval "L$k="; done
+for d in $ALL; do i=$(( i % LANES + 1 )); eval "L$i=\"\$L$i $d\""; done
+for k in $(seq 1 $LANES); do eval "lane $k \$L$k" & done
+wait
+rm -rf $VERIF_ROOT
 tools/seed_index.py
